@@ -30,7 +30,7 @@ MUST_SEE = [
     "replace_child_equal_twin", "dc_replace", "control_constructions", "dup_noninit_fields",
 ]
 CONFIG = {
-    "quick": {"shards": 16, "cases": 120, "watchdog_s": 300},
+    "quick": {"shards": 16, "cases": 1200, "watchdog_s": 300},
     "thorough": {"shards": 32, "cases": 1500, "watchdog_s": 3000},
 }
 
